@@ -131,9 +131,10 @@ class CFG:
 class Builder:
     """may_raise(ast_node, kind) -> bool decides whether a node gets an exceptional edge."""
 
-    def __init__(self, func_node, may_raise):
+    def __init__(self, func_node, may_raise, noreturn=None):
         self.g = CFG(func_node)
         self.may_raise = may_raise
+        self.noreturn = noreturn
         self.handlers = [[("raise", self.g.raise_exit, None)]]   # stack of lists of (kind, node, types)
         self.loops = []             # (continue_target, break_collector)
         self.finals = []            # enclosing finally bodies (innermost last)
@@ -219,7 +220,9 @@ class Builder:
             for m, lab in o:
                 g.edge(m, g.exit, "return")
             return []
-        if isinstance(st, ast.Raise):
+        if isinstance(st, ast.Raise) or (self.noreturn is not None and isinstance(st, ast.Expr) and
+                                         isinstance(st.value, ast.Call) and self.noreturn(st.value)):
+            # a raise, or a call of a helper that always raises
             n = g.new("stmt", st)
             self.connect(outs, n)
             self.add_exc(n)
@@ -284,5 +287,5 @@ class Builder:
         return body_out + after_handlers
 
 
-def build(func_node, may_raise):
-    return Builder(func_node, may_raise).build()
+def build(func_node, may_raise, noreturn=None):
+    return Builder(func_node, may_raise, noreturn).build()
